@@ -43,6 +43,7 @@ pub fn corpus_program(seed: u64, k: u64, codec: bool) -> Program {
     cfg.hostile_names = k % 7 == 2;
     cfg.cow_def = false;
     cfg.odd_docs = false;
+    cfg.bitvec_param = false;
     if codec {
         cfg.allow_char = false;
         cfg.generic_recursion = false;
